@@ -35,12 +35,12 @@ CONSTANTS Procs, Kinds, Objs, MaxOps, MaxIds,
           Dev_IterateLive, Dev_CowNoLock, Dev_PushFront, Dev_PruneAllWeak, Dev_NoExpiryCheck, Dev_NoPrune, Dev_EmitHoldsMutex
 VARIABLES slots,     \* the published list: sequence of [id, kind, w]   (w = weak target, 0 = none)
           nextId, alive, pruneFlag, mutex,
-          pc,        \* <<"idle">> | <<"iter">> | <<"nested", what, id>> | <<"prunecas">> | <<"prune">> | <<"pruneclear">> | <<"emitret">> | <<"store", clone, slot>> | <<"stuck">>
-          em,        \* em[t] = [x, snap, i, anyExp, overlap]: the emit thread t is in
+          pc,        \* <<"idle">> | <<"iter">> | <<"nested", what, id>> | <<"prune">> | <<"pruneclear">> | <<"emitret">> | <<"store", clone, slot>> | <<"stuck">>
+          em,        \* em[t] = [x, snap, i, anyExp, overlap, pruned]: the emit thread t is in (x = 0: none)
           nops, nemit, clk,
-          inv,       \* ghost: invocations [x, id, ok (weak target alive)]
+          inv,       \* ghost: invocations [x, id, ok (weak target alive), at (clk)]
           conn,      \* ghost: conn[id] = [c, d]: clk of the connect / of the (first) disconnect that removed it (0 = still connected)
-          snapAt,    \* ghost: snapAt[x] = clk of the snapshot, callAt[x] / retAt[x]
+          snapAt,    \* ghost: snapAt[x] = clk of emit x's snapshot
           last
 vars == <<slots, nextId, alive, pruneFlag, mutex, pc, em, nops, nemit, clk, inv, conn, snapAt, last>>
 
